@@ -1,25 +1,44 @@
 import Cqos.DriverPure
+import Cqos.DriverSched
 /-
   `cqosmodel`: reads one request per line on stdin, prints one reply line per request.
-  Unknown or malformed requests are answered `bad-op` (never defaulted).
+  Unknown or malformed requests are answered `bad-op` (never defaulted).  A `cfg` line
+  starts a scheduler session; the following stepper operations act on it.
 -/
 open Cqos
 
 def splitLine (line : String) : List String :=
   ((line.trimAscii.toString).splitOn " ").filter (· ≠ "")
 
-partial def loop (h : IO.FS.Stream) (out : IO.FS.Stream) : IO Unit := do
+structure Sessions where
+  sched : Option DriverSched.Session := none
+
+def handle (ss : Sessions) (toks : List String) : String × Sessions :=
+  match toks with
+  | "cfg" :: _ =>
+    match DriverSched.startSession toks with
+    | some (r, s) => (r, { ss with sched := s })
+    | none => ("bad-op", { ss with sched := none })
+  | _ =>
+    match DriverPure.op toks with
+    | some r => (r, ss)
+    | none =>
+      match ss.sched with
+      | some s =>
+        (match DriverSched.op s toks with
+         | some (r, s') => (r, { ss with sched := some s' })
+         | none => ("bad-op", ss))
+      | none => ("bad-op", ss)
+
+partial def loop (h : IO.FS.Stream) (out : IO.FS.Stream) (ss : Sessions) : IO Unit := do
   let line ← h.getLine
   if line.isEmpty then return ()
-  let toks := splitLine line
-  let reply := match DriverPure.op toks with
-    | some r => r
-    | none => "bad-op"
+  let (reply, ss') := handle ss (splitLine line)
   out.putStrLn reply
-  loop h out
+  loop h out ss'
 
 def main : IO Unit := do
   let stdin ← IO.getStdin
   let stdout ← IO.getStdout
-  loop stdin stdout
+  loop stdin stdout {}
   stdout.flush
